@@ -32,6 +32,15 @@ def deg180 : α := ((1:α)+1+1) * ((1+1+1) * (1+1)) * ((1+1+1+1+1) * (1+1))
 
 def fabs (a : α) : α := if a < 0 then -a else a
 
+/-- the orientation cascade of `planeParamsFromPoints`: origin negative, else (0,0,∞), (0,∞,0), (∞,0,0)
+positive; `P` / `F` = the parameters as computed / with all signs flipped -/
+def orient (e2 pos ux uy uz : α) (P F : List α) : Option (List α) :=
+  if pos < -e2 then some F else if e2 < pos then some P
+  else if uz < -e2 then some F else if e2 < uz then some P
+  else if uy < -e2 then some F else if e2 < uy then some P
+  else if ux < -e2 then some F else if e2 < ux then some P
+  else none
+
 /-- `planeParamsFromPoints` with its two tolerances (`1e-10`, `1e-14`) as parameters -/
 def planeFromPoints (e1 e2 : α) (p1 p2 p3 : V3 α) : Option (List α) :=
   let n := (p1.sub p2).cross (p1.sub p3)
@@ -39,13 +48,7 @@ def planeFromPoints (e1 e2 : α) (p1 p2 p3 : V3 α) : Option (List α) :=
   if l2 < e1 || l2 == e1 then none else
   let u := V3.smul (1 / Transc.sqrt l2) n
   let pos := u.dot p1
-  let params := [u.x, u.y, u.z, pos]
-  let flipped := [-u.x, -u.y, -u.z, -pos]
-  if pos < -e2 then some flipped else if e2 < pos then some params
-  else if u.z < -e2 then some flipped else if e2 < u.z then some params
-  else if u.y < -e2 then some flipped else if e2 < u.y then some params
-  else if u.x < -e2 then some flipped else if e2 < u.x then some params
-  else none
+  orient e2 pos u.x u.y u.z [u.x, u.y, u.z, pos] [-u.x, -u.y, -u.z, -pos]
 
 def mkPlane (pt ax : V3 α) : MSurf α := { kind := .p, pt := pt, ax := ax }
 def mkSphere (x y z r : α) : MSurf α := { kind := .s, pt := ⟨x, y, z⟩, ax := ⟨0, 0, 1⟩, compl := [r] }
